@@ -51,6 +51,15 @@ TOL = z3.Const('tol', Val)
 CacheInfoC = z3.Function('CacheInfo', INT, INT, INT, Val, INT, Val)
 
 
+# state components a property's clauses do not read (regular expression over symbol names): the quantified
+# premises about them are left out of the first proof attempt (sound: premises are only dropped; the full
+# path condition is tried next).  C06 speaks about which keys are resident and about the recency /
+# frequency bookkeeping -- not about stored values, archive contents or statistics.
+READS_DENY = {
+    'C06': r'^(A_|S_|cache_A_|cache_S_|cache_mem_|LA_|Gval$|Fok$|F$|Fraises$|hit!|miss!|load!)',
+}
+
+
 def _packed(ca, name, npos=0):
     if len(ca.pos) != npos or ca.kw or not isinstance(ca.star, Opaque) or not isinstance(ca.dstar, Opaque):
         raise Unsupported('%s is not called as %s(%s*args, **kwds)' % (name, name, 'f, ignore, ' if npos else ''))
@@ -421,8 +430,11 @@ class Case(object):
             def ob(prop, clause, goal):
                 if isinstance(goal, bool):
                     goal = z3.BoolVal(goal)
+                info = {'case': self.qual, 'op': 'call', 'pi': pi}
+                if prop in READS_DENY:
+                    info['deny'] = READS_DENY[prop]
                 obs.append(Obligation('%s/%s' % (fn, clause), s.pc, goal, kind='clause', prop=prop,
-                                      path=path, func=fn, info={'case': self.qual, 'op': 'call', 'pi': pi}))
+                                      path=path, func=fn, info=info, cuts=s.ghost.get('cuts', ())))
             normal = not isinstance(res, Exc)
             on = z3.Not(pre.A.null)
             inmem = pre.mem.dom[key]
@@ -543,7 +555,8 @@ class Case(object):
                         z3.And(usable, post.mem.dom[key]),
                         z3.And(q1.cnt[key] >= 1, q1.last[key] == q1.hi - 1)))
                     ob('C06', '%s.recency_order_preserved' % self.policy, forall([x, y], z3.Implies(
-                        z3.And(x != key, y != key, q1.cnt[x] >= 1, q1.cnt[y] >= 1, q0.cnt[x] >= 1, q0.cnt[y] >= 1),
+                        z3.And(x != key, y != key, post.mem.dom[x], post.mem.dom[y],
+                               q1.cnt[x] >= 1, q1.cnt[y] >= 1, q0.cnt[x] >= 1, q0.cnt[y] >= 1),
                         (q0.last[x] < q0.last[y]) == (q1.last[x] < q1.last[y]))))
                     ob('C06', '%s.bookkeeping_covers_residents' % self.policy, z3.Implies(coh, forall([x], z3.Implies(
                         post.mem.dom[x], q1.cnt[x] >= 1))))
